@@ -403,3 +403,136 @@ pub proof fn lemma_reg1_int(t: asp::Term, iv: Seq<String>, gt: GeneralTerm, fc: 
         _ => {}
     }
 }
+
+// ---- shapes produced by the body translators (syntactic; the lemmas above give their meaning) ---------------------------------
+pub open spec fn p2f_seq(terms: Seq<asp::Term>, iv: Seq<String>) -> Seq<GeneralTerm> { Seq::new(terms.len(), |i: int| spec_p2f(terms[i], iv)->Some_0) }
+pub open spec fn p2f_all_some(terms: Seq<asp::Term>, iv: Seq<String>) -> bool { forall|i: int| 0 <= i < terms.len() ==> (#[trigger] spec_p2f(terms[i], iv)) is Some }
+
+pub open spec fn nat_lit_shape(f: Formula, l: asp::Literal, iv: Seq<String>) -> bool {
+    p2f_all_some(l.atom.terms@, iv) && is_signed_atom(f, l.sign, l.atom.predicate_symbol@, p2f_seq(l.atom.terms@, iv))
+}
+pub open spec fn nat_cmp_shape(f: Formula, c: asp::Comparison, iv: Seq<String>) -> bool {
+    spec_p2f(c.lhs, iv) is Some && (
+        if c.relation == asp::Relation::Equal && spec_reg2(c.rhs) {
+            spec_p2f(*c.rhs->BinaryOperation_lhs, iv) is Some && spec_p2f(*c.rhs->BinaryOperation_rhs, iv) is Some
+            && cmp2(spec_p2f(*c.rhs->BinaryOperation_lhs, iv)->Some_0, Relation::LessEqual, spec_p2f(c.lhs, iv)->Some_0, Relation::LessEqual, spec_p2f(*c.rhs->BinaryOperation_rhs, iv)->Some_0, f)
+        } else {
+            spec_p2f(c.rhs, iv) is Some && cmp1(spec_p2f(c.lhs, iv)->Some_0, rel_of(c.relation), spec_p2f(c.rhs, iv)->Some_0, f)
+        })
+}
+pub open spec fn nat_af_shape(f: Formula, af: asp::AtomicFormula, iv: Seq<String>) -> bool {
+    match af {
+        asp::AtomicFormula::Literal(l) => nat_lit_shape(f, l, iv),
+        asp::AtomicFormula::Comparison(c) => nat_cmp_shape(f, c, iv),
+    }
+}
+
+/// every argument / comparison side of the body element that is built with an operation has only integer variables
+pub open spec fn af_closed(af: asp::AtomicFormula, iv: Seq<String>) -> bool { forall|t: asp::Term| #[trigger] af_top(af, t) ==> arith_closed(t, iv) }
+
+/// C08, body elements: under corresponding assignments the translation of a body element has the truth value of the element
+pub proof fn lemma_nat_af(f: Formula, af: asp::AtomicFormula, iv: Seq<String>, w: World, m: HT, g: Asg, s: Asg)
+    requires nat_af_shape(f, af, iv), af_closed(af, iv), corr(g, s, iv, |k: VKey| af_in(af, k)), ht_wf(m),
+    ensures ht_sat(f, w, m, s) == af_sat(af, w, m, g),
+{
+    match af {
+        asp::AtomicFormula::Literal(l) => {
+            let terms = l.atom.terms@;
+            let gts = p2f_seq(terms, iv);
+            assert(p2f_all(terms, iv, gts)) by {
+                assert forall|i: int| 0 <= i < terms.len() implies #[trigger] spec_p2f(terms[i], iv) == Some(gts[i]) && arith_closed(terms[i], iv) by {
+                    assert(terms.contains(terms[i]));
+                    assert(af_top(af, terms[i]));
+                }
+            }
+            assert(corr(g, s, iv, |k: VKey| terms_in(terms, k)));
+            lemma_nat_literal(l, iv, gts, f, w, m, g, s);
+        }
+        asp::AtomicFormula::Comparison(c) => {
+            assert(af_top(af, c.lhs) && af_top(af, c.rhs));
+            assert(corr(g, s, iv, |k: VKey| cmp_in(c, k)));
+            if c.relation == asp::Relation::Equal && spec_reg2(c.rhs) {
+                lemma_nat_cmp_interval(c, iv, spec_p2f(c.lhs, iv)->Some_0, spec_p2f(*c.rhs->BinaryOperation_lhs, iv)->Some_0, spec_p2f(*c.rhs->BinaryOperation_rhs, iv)->Some_0, f, w, m, g, s);
+            } else {
+                lemma_nat_cmp_plain(c, iv, spec_p2f(c.lhs, iv)->Some_0, spec_p2f(c.rhs, iv)->Some_0, f, w, m, g, s);
+            }
+        }
+    }
+}
+
+pub proof fn lemma_nat_af_fv(f: Formula, af: asp::AtomicFormula, iv: Seq<String>, k: VKey)
+    requires nat_af_shape(f, af, iv), af_closed(af, iv), fv(f, k),
+    ensures af_in(af, (k.0, Sort::General)) && k == nkey(iv, k.0),
+{
+    match af {
+        asp::AtomicFormula::Literal(l) => {
+            let terms = l.atom.terms@;
+            let gts = p2f_seq(terms, iv);
+            assert(p2f_all(terms, iv, gts)) by {
+                assert forall|i: int| 0 <= i < terms.len() implies #[trigger] spec_p2f(terms[i], iv) == Some(gts[i]) && arith_closed(terms[i], iv) by {
+                    assert(terms.contains(terms[i]));
+                    assert(af_top(af, terms[i]));
+                }
+            }
+            lemma_nat_literal_fv(l, iv, gts, f, k);
+        }
+        asp::AtomicFormula::Comparison(c) => {
+            assert(af_top(af, c.lhs) && af_top(af, c.rhs));
+            let lhs = spec_p2f(c.lhs, iv)->Some_0;
+            if c.relation == asp::Relation::Equal && spec_reg2(c.rhs) {
+                let t2 = *c.rhs->BinaryOperation_lhs;
+                let t3 = *c.rhs->BinaryOperation_rhs;
+                let lo = spec_p2f(t2, iv)->Some_0;
+                let hi = spec_p2f(t3, iv)->Some_0;
+                lemma_cmp2_fv(lo, Relation::LessEqual, lhs, Relation::LessEqual, hi, f, k);
+                assert forall|kk: VKey| #[trigger] asp_in_term(t2, kk) implies is_int_var(iv, kk.0) by { assert(asp_in_term(c.rhs, kk) == (asp_in_term(t2, kk) || asp_in_term(t3, kk))); }
+                assert forall|kk: VKey| #[trigger] asp_in_term(t3, kk) implies is_int_var(iv, kk.0) by { assert(asp_in_term(c.rhs, kk) == (asp_in_term(t2, kk) || asp_in_term(t3, kk))); }
+                if in_gen(lhs, k) { lemma_p2f_fv(c.lhs, iv, lhs, k); }
+                if in_gen(lo, k) { lemma_p2f_fv(t2, iv, lo, k); assert(asp_in_term(c.rhs, (k.0, Sort::General)) == (asp_in_term(t2, (k.0, Sort::General)) || asp_in_term(t3, (k.0, Sort::General)))); }
+                if in_gen(hi, k) { lemma_p2f_fv(t3, iv, hi, k); assert(asp_in_term(c.rhs, (k.0, Sort::General)) == (asp_in_term(t2, (k.0, Sort::General)) || asp_in_term(t3, (k.0, Sort::General)))); }
+            } else {
+                let rhs = spec_p2f(c.rhs, iv)->Some_0;
+                lemma_cmp1_fv(lhs, rel_of(c.relation), rhs, f, k);
+                if in_gen(lhs, k) { lemma_p2f_fv(c.lhs, iv, lhs, k); }
+                if in_gen(rhs, k) { lemma_p2f_fv(c.rhs, iv, rhs, k); }
+            }
+        }
+    }
+}
+
+/// the translation of a body: conjunction of the translations of its elements, in order
+pub open spec fn nat_body_shape(f: Formula, body: Seq<asp::AtomicFormula>, iv: Seq<String>) -> bool {
+    exists|fs: Seq<Formula>| f == #[trigger] spec_conjoin(fs) && fs.len() == body.len() && forall|i: int| 0 <= i < fs.len() ==> #[trigger] nat_af_shape(fs[i], body[i], iv)
+}
+pub open spec fn body_closed(body: Seq<asp::AtomicFormula>, iv: Seq<String>) -> bool { forall|i: int| 0 <= i < body.len() ==> #[trigger] af_closed(body[i], iv) }
+
+pub proof fn lemma_nat_body(f: Formula, body: Seq<asp::AtomicFormula>, iv: Seq<String>, w: World, m: HT, g: Asg, s: Asg)
+    requires nat_body_shape(f, body, iv), body_closed(body, iv), corr(g, s, iv, |k: VKey| body_in(body, k)), ht_wf(m),
+    ensures ht_sat(f, w, m, s) == body_sat(body, w, m, g),
+{
+    let fs = choose|fs: Seq<Formula>| f == #[trigger] spec_conjoin(fs) && fs.len() == body.len() && forall|i: int| 0 <= i < fs.len() ==> #[trigger] nat_af_shape(fs[i], body[i], iv);
+    lemma_conjoin_ht(fs, w, m, s);
+    assert forall|i: int| 0 <= i < fs.len() implies #[trigger] ht_sat(fs[i], w, m, s) == af_sat(body[i], w, m, g) by {
+        assert(nat_af_shape(fs[i], body[i], iv));
+        assert(af_closed(body[i], iv));
+        assert(corr(g, s, iv, |k: VKey| af_in(body[i], k))) by {
+            assert forall|k: VKey| af_in(body[i], k) implies #[trigger] g[k] == s[nkey(iv, k.0)] && (is_int_var(iv, k.0) ==> g[k] is Int) by { assert(body_in(body, k)); }
+        }
+        lemma_nat_af(fs[i], body[i], iv, w, m, g, s);
+    }
+    if ht_sat(f, w, m, s) { assert forall|i: int| 0 <= i < body.len() implies #[trigger] af_sat(body[i], w, m, g) by { assert(ht_sat(fs[i], w, m, s)); } }
+    if body_sat(body, w, m, g) { assert forall|i: int| 0 <= i < fs.len() implies #[trigger] ht_sat(fs[i], w, m, s) by { assert(af_sat(body[i], w, m, g)); } }
+}
+
+pub proof fn lemma_nat_body_fv(f: Formula, body: Seq<asp::AtomicFormula>, iv: Seq<String>, k: VKey)
+    requires nat_body_shape(f, body, iv), body_closed(body, iv), fv(f, k),
+    ensures body_in(body, (k.0, Sort::General)) && k == nkey(iv, k.0),
+{
+    let fs = choose|fs: Seq<Formula>| f == #[trigger] spec_conjoin(fs) && fs.len() == body.len() && forall|i: int| 0 <= i < fs.len() ==> #[trigger] nat_af_shape(fs[i], body[i], iv);
+    lemma_conjoin_fv(fs, k);
+    let i = choose|i: int| 0 <= i < fs.len() && #[trigger] fv(fs[i], k);
+    assert(nat_af_shape(fs[i], body[i], iv));
+    assert(af_closed(body[i], iv));
+    lemma_nat_af_fv(fs[i], body[i], iv, k);
+    assert(af_in(body[i], (k.0, Sort::General)));
+}
